@@ -200,11 +200,14 @@ def parent(args):
         "wall_s": round(wall, 2),
         "violations": len(found),
     }
-    os.makedirs(os.path.join(HERE, "evidence"), exist_ok=True)
-    tmp = os.path.join(HERE, "evidence", f".{mod.PROPERTY}.json.tmp")
+    # sensitivity runs against scratch copies (tools/mutant.py) must not touch the real evidence
+    evdir = os.path.join(HERE, ".work", "scratch-evidence") if os.environ.get("VERIF_SCRATCH") \
+        else os.path.join(HERE, "evidence")
+    os.makedirs(evdir, exist_ok=True)
+    tmp = os.path.join(evdir, f".{mod.PROPERTY}.json.tmp")
     with open(tmp, "w") as f:
         json.dump(evidence, f, indent=1, default=core._json_default)
-    os.replace(tmp, os.path.join(HERE, "evidence", f"{mod.PROPERTY}.json"))
+    os.replace(tmp, os.path.join(evdir, f"{mod.PROPERTY}.json"))
     _cleanup(work)
     print(f"{mod.PROPERTY} {args.tier} seed={args.seed}: {evaluations} cases, "
           f"{len(nontriv)} distinct non-trivial, {len(found)} unlisted violation(s), "
